@@ -30,7 +30,31 @@ def _numstr(j):
     return (2000 + j if j % 4 == 0 else j + 0.5) if j % 2 == 0 else f's{j}'
 
 
+ORDERABLE = {'list_int', 'list_str', 'np_int', 'np_str', 'pd_index_int', 'pd_index_str'}
+
+
+def _reorder(items, how):
+    """Labels need not come in sorted order: descending, or in no order at all (a fixed permutation)."""
+    n = len(items)
+    if how == 'desc':
+        return items[::-1]
+    if how == 'shuffle' and n > 2:
+        k = next(c for c in (7, 5, 3, 11, 13) if n % c)
+        return [items[(i * k + 1) % n] for i in range(n)]
+    return items
+
+
 def make_span(spec):
+    if spec.get('order') and spec['type'] in ORDERABLE:
+        plain = make_span({k_: v_ for k_, v_ in spec.items() if k_ != 'order'})
+        items = _reorder([plain[i] for i in range(len(plain))], spec['order'])
+        if spec['type'].startswith('list'):
+            return list(items)
+        if spec['type'].startswith('np'):
+            return np.array([x.item() if hasattr(x, 'item') else x for x in items])
+        import pandas as pd
+
+        return pd.Index(items)
     ty, n, o = spec['type'], spec['n'], spec.get('origin', 0)
     if ty == 'range':
         return range(o, o + n)
